@@ -96,6 +96,22 @@ def plan(info):
                 steps.append((f'mccall {client} {nm} {release["name"]}',
                               {'role': 'client->provides-in', 'port': nm, 'ev': release,
                                'side': 'comp', 'hport': nm}))
+    if mc and [e for e in evs if e['dir'] == 'out']:
+        # the arbiter grants the second client while the first has not released (an overrule): the
+        # out-events belong to the client granted last
+        out_ev = [e for e in evs if e['dir'] == 'out'][0]
+        for client in (first, second):
+            steps.append((f'force {nm}.{claim["name"]} {gidx}', None))
+            steps.append((f'mccall {client} {nm} {claim["name"]}',
+                          {'role': 'client->provides-in', 'port': nm, 'ev': claim, 'side': 'comp',
+                           'hport': nm, 'forced': gidx}))
+        steps.append((f'pcomp {nm} {out_ev["name"]}',
+                      {'role': 'component->provides-out', 'port': nm, 'ev': out_ev, 'side': 'user',
+                       'hport': f'{nm}@{second}'}))
+        for client in (second, first):
+            steps.append((f'mccall {client} {nm} {release["name"]}',
+                          {'role': 'client->provides-in', 'port': nm, 'ev': release, 'side': 'comp',
+                           'hport': nm}))
     # events the component raises while it handles an event (one per plain port that has both)
     for p in info.ports:
         if info.is_mc(p):
